@@ -19,7 +19,7 @@ use crate::{
 };
 
 #[cfg(feature = "autocomplete")]
-use crate::autocomplete::Request;
+use crate::autocomplete::{Autocompletion, Request};
 
 #[cfg(feature = "help")]
 use crate::{help::HelpRequest, service::HelpError};
@@ -47,7 +47,8 @@ where
 //@ pub open spec fn errs(&self) -> nat { self.writer.errs() }
     /// Set new prompt to use in CLI
     pub fn set_prompt(&mut self, prompt: &'static str) {
-//@ ensures final(self).wf() == old(self).wf(), final(self).errs() == old(self).errs(), handle_api_only(self),
+//@ ensures final(self).wf() == old(self).wf(), final(self).errs() == old(self).errs(), old(self).wf() ==> handle_api_only(self),
+//@     final(self).writer == old(self).writer,
         self.new_prompt = Some(prompt)
     }
 
@@ -150,6 +151,19 @@ where
 //@ pub closed spec fn prompt_bytes(&self) -> Seq<u8> { self.prompt.spec_bytes() }
 //@ /// everything except editor and decoder is in place (state inside process_byte)
 //@ pub closed spec fn wf_inner(&self) -> bool { self.hist_wf() }
+//@ #[cfg(feature = "history")]
+//@ pub closed spec fn same_hist(&self, o: &Self) -> bool { self.history == o.history }
+//@ #[cfg(not(feature = "history"))]
+//@ pub closed spec fn same_hist(&self, o: &Self) -> bool { true }
+//@ /// frame: everything but the sink is unchanged
+//@ pub closed spec fn rest_eq(&self, o: &Self) -> bool {
+//@     self.editor == o.editor && self.input_generator == o.input_generator && self.prompt == o.prompt && self.same_hist(o)
+//@ }
+//@ /// C14 + C15 for one library operation that succeeded: no failed sink operation, and either nothing was written
+//@ /// or the last sink operation is a flush
+//@ pub closed spec fn sink_ok(&self, o: &Self) -> bool {
+//@     self.writer.errs() == o.writer.errs() && (self.writer.evs() == o.writer.evs() || self.writer.evs().last() is F && self.writer.evs().len() > 0)
+//@ }
     #[allow(unused_variables)]
     #[deprecated(since = "0.2.1", note = "please use `builder` instead")]
     pub fn new(
@@ -211,9 +225,22 @@ where
         b: u8,
         processor: &mut P,
     ) -> Result<(), E> {
+//@ requires old(self).wf(),
+//@ ensures
+//@     // C14: the session stays usable whatever happens: editor and decoder are put back, the line is well-formed text
+//@     final(self).wf(),   // [C14,C03]
+//@     // C14: a failed sink operation is never swallowed.  C15: whatever was written has been flushed
+//@     r is Ok ==> final(self).errs() == old(self).errs(),   // [C14]
+//@     r is Ok ==> (final(self).evs() == old(self).evs() || final(self).evs().len() > 0 && final(self).evs().last() is F),   // [C15]
+//@     // C01: only a line terminator can invoke the handler, at most once, and only with the tokens of the line
+//@     (b != 0x0D && b != 0x0A) ==> final(processor).calls() == old(processor).calls(),   // [C01]
+//@     final(processor).calls() == old(processor).calls()
+//@         || (nul_free(old(self).line_bytes()) ==> (dispatch_of(old(self).line_bytes(), feat_help()) matches Some(x)
+//@             && final(processor).calls() == old(processor).calls().push(x))),   // [C01,C12]
         if let (Some(mut editor), Some(mut input_generator)) =
             (self.editor.take(), self.input_generator.take())
         {
+//@ proof { assert(editor.wf()); assert(input_generator.wf()); }
             let result = match input_generator.accept(b) {
                 Some(input) => match input {
                     Input::Control(control) => {
@@ -237,6 +264,11 @@ where
     /// Changes will apply immediately and current line
     /// will be replaced by new prompt and input
     pub fn set_prompt(&mut self, prompt: &'static str) -> Result<(), E> {
+//@ requires old(self).wf(),
+//@ ensures final(self).wf(), final(self).line_bytes() == old(self).line_bytes(), final(self).cur() == old(self).cur(),
+//@     final(self).prompt_bytes() == prompt.spec_bytes(),
+//@     r is Ok ==> final(self).errs() == old(self).errs(),   // [C14]
+//@     r is Ok ==> final(self).evs().len() > 0 && final(self).evs().last() is F,   // [C15]
         self.prompt = prompt;
         self.clear_line(false)?;
 
@@ -251,6 +283,15 @@ where
         &mut self,
         f: impl FnOnce(&mut Writer<'_, W, E>) -> Result<(), E>,
     ) -> Result<(), E> {
+//@ requires old(self).wf(),
+//@     // the closure may be called with any well-formed Writer and uses it through its API only (ASSUMED of callers)
+//@     forall|w: &mut Writer<'_, W, E>| w.wf() ==> #[trigger] f.requires((w,)),
+//@     forall|w: &mut Writer<'_, W, E>, res: Result<(), E>| #[trigger] f.ensures((w,), res) ==>
+//@         crate::writer::writer_api_only(w) && (res is Ok ==> final(w).errs() == w.errs()),
+//@ ensures final(self).wf(), final(self).line_bytes() == old(self).line_bytes(), final(self).cur() == old(self).cur(),   // [C13]
+//@     final(self).prompt_bytes() == old(self).prompt_bytes(),
+//@     r is Ok ==> final(self).errs() == old(self).errs(),   // [C14]
+//@     r is Ok ==> final(self).evs().len() > 0 && final(self).evs().last() is F,   // [C15]
         self.clear_line(true)?;
 
         let mut cli_writer = Writer::new(&mut self.writer);
@@ -270,6 +311,9 @@ where
     }
 
     fn clear_line(&mut self, clear_prompt: bool) -> Result<(), E> {
+//@ ensures final(self).rest_eq(old(self)),
+//@     r is Ok ==> final(self).writer.errs() == old(self).writer.errs(),   // [C14]
+//@     r is Ok ==> final(self).writer.evs().len() > 0 && final(self).writer.evs().last() is F,   // [C15]
         self.writer.write_str("\r")?;
         self.writer.write_bytes(codes::CLEAR_LINE)?;
 
@@ -281,6 +325,14 @@ where
     }
 
     fn on_text_input(&mut self, editor: &mut Editor<CommandBuffer>, text: &str) -> Result<(), E> {
+//@ requires old(editor).wf(), text@.len() == 1,
+//@ ensures final(editor).wf(), final(editor).cap() == old(editor).cap(), final(self).rest_eq(old(self)),
+//@     // C05/C14: the edit does not depend on the sink: the character goes in at the cursor iff it fits
+//@     ({ let fits = old(editor).line_bytes().len() + text.spec_bytes().len() <= old(editor).cap();
+//@        let c = old(editor).cur() as int; let l = old(editor).line();
+//@        &&& fits ==> final(editor).line() == l.subrange(0, c) + text@ + l.subrange(c, l.len() as int) && final(editor).cur() == c + 1
+//@        &&& !fits ==> final(editor).line_bytes() == old(editor).line_bytes() && final(editor).cur() == old(editor).cur() }),   // [C05,C14]
+//@     r is Ok ==> final(self).sink_ok(old(self)),   // [C14,C15]
         let is_inside = editor.cursor() < editor.len();
         if let Some(c) = editor.insert(text) {
             if is_inside {
@@ -299,6 +351,27 @@ where
         control: ControlInput,
         processor: &mut P,
     ) -> Result<(), E> {
+//@ requires old(editor).wf(), old(self).wf_inner(),
+//@ ensures final(editor).wf(), final(self).wf_inner(), final(editor).cap() == old(editor).cap(),   // [C14,C03]
+//@     final(self).editor == old(self).editor, final(self).input_generator == old(self).input_generator,
+//@     r is Ok ==> final(self).sink_ok(old(self)),   // [C14,C15]
+//@     // C01: no key but Enter invokes the handler
+//@     !(control is Enter) ==> final(processor).calls() == old(processor).calls(),   // [C01]
+//@     // C01: Enter invokes it at most once and only with the tokens of the line as it stood
+//@     control is Enter ==> (final(processor).calls() == old(processor).calls()
+//@         || (nul_free(old(editor).line_bytes()) ==> (dispatch_of(old(editor).line_bytes(), feat_help()) matches Some(x)
+//@             && final(processor).calls() == old(processor).calls().push(x)))),   // [C01,C12]
+//@     // C01: when nothing failed, it is invoked exactly when the line has a token and is not a help request;
+//@     // afterwards the line is empty and a fresh prompt has been printed
+//@     control is Enter && r is Ok && nul_free(old(editor).line_bytes()) ==>
+//@         final(processor).calls() == (match dispatch_of(old(editor).line_bytes(), feat_help()) {
+//@             Some(x) => old(processor).calls().push(x), None => old(processor).calls() }),   // [C01,C12]
+//@     control is Enter && r is Ok ==> final(editor).line_bytes() == Seq::<u8>::empty() && final(editor).cur() == 0
+//@         && final(self).writer.evs().len() >= 2
+//@         && final(self).writer.evs()[final(self).writer.evs().len() - 2] == Ev::W(final(self).prompt.spec_bytes()),   // [C01]
+//@     // C14: after a failed Enter the line is as it was or cleared, never a tokenised mixture
+//@     control is Enter && r is Err ==> (final(editor).line_bytes() == old(editor).line_bytes() && final(editor).cur() == old(editor).cur())
+//@         || (final(editor).line_bytes() == Seq::<u8>::empty() && final(editor).cur() == 0),   // [C14]
         match control {
             ControlInput::Enter => {
                 self.writer.write_str(codes::CRLF)?;
@@ -308,9 +381,11 @@ where
                 let text = editor.text_mut();
 
                 let tokens = Tokens::new(text);
-                self.process_input::<C, _>(tokens, processor)?;
+                let result = self.process_input::<C, _>(tokens, processor);
 
+                // line was tokenized in place, so it is cleared even if processing failed
                 editor.clear();
+                result?;
 
                 self.writer.flush_str(self.prompt)?;
             }
@@ -347,14 +422,17 @@ where
         editor: &mut Editor<CommandBuffer>,
         dir: NavigateInput,
     ) -> Result<(), E> {
+//@ requires old(editor).wf(),
+//@ ensures final(editor).wf(), final(editor).cap() == old(editor).cap(), final(self).rest_eq(old(self)),
+//@     final(editor).line_bytes() == old(editor).line_bytes(),   // [C05]
+//@     r is Ok ==> final(self).sink_ok(old(self)),   // [C14,C15]
         match dir {
-            NavigateInput::Backward if editor.move_left() => {
+            NavigateInput::Backward => if editor.move_left() {
                 self.writer.flush_bytes(codes::CURSOR_BACKWARD)?;
-            }
-            NavigateInput::Forward if editor.move_right() => {
+            } else { return Ok(()) },
+            NavigateInput::Forward => if editor.move_right() {
                 self.writer.flush_bytes(codes::CURSOR_FORWARD)?;
-            }
-            _ => return Ok(()),
+            } else { return Ok(()) },
         }
         Ok(())
     }
@@ -365,6 +443,10 @@ where
         editor: &mut Editor<CommandBuffer>,
         dir: NavigateHistory,
     ) -> Result<(), E> {
+//@ requires old(editor).wf(), old(self).wf_inner(),
+//@ ensures final(editor).wf(), final(self).wf_inner(), final(editor).cap() == old(editor).cap(),
+//@     final(self).editor == old(self).editor, final(self).input_generator == old(self).input_generator, final(self).prompt == old(self).prompt,
+//@     r is Ok ==> final(self).sink_ok(old(self)),   // [C14,C15]
         let history_elem = match dir {
             NavigateHistory::Older => self.history.next_older(),
             NavigateHistory::Newer => self.history.next_newer().or(Some("")),
@@ -384,12 +466,27 @@ where
         &mut self,
         editor: &mut Editor<CommandBuffer>,
     ) -> Result<(), E> {
+//@ requires old(editor).wf(),
+//@ ensures final(editor).wf(), final(editor).cap() == old(editor).cap(), final(self).rest_eq(old(self)),
+//@     r is Ok ==> final(self).sink_ok(old(self)),   // [C14,C15]
         let initial_cursor = editor.cursor();
-        editor.autocompletion(|request, autocompletion| {
+        editor.autocompletion(|request: Request<'_>, autocompletion: &mut Autocompletion<'_>| {
+//@ requires autocompletion.wf(),
+//@ ensures crate::autocomplete::ac_api_only(autocompletion),
+//@ ---
+//@ proof { broadcast use axiom_str_len_bound; broadcast use lemma_str_view_bytes; lemma_help_word(); }
             C::autocomplete(request.clone(), autocompletion);
             match request {
                 Request::CommandName(name) if crate::verif_specs::str_starts_with("help", name) => {
                     // SAFETY: "help" starts with name, so name cannot be longer
+//@ proof {   // [C02]
+//@     // "help" is ASCII: every index is a character boundary
+//@     lemma_help_word();
+//@     let h = "help".spec_bytes();
+//@     assert(valid_utf8(h));
+//@     if name.spec_bytes().len() < 4 { lemma_ascii_boundaries(h, name.spec_bytes().len() as int); }
+//@     is_char_boundary_start_end_of_seq(h);
+//@ }
                     let autocompleted = unsafe { "help".get_unchecked(name.len()..) };
                     autocompletion.merge_autocompletion(autocompleted)
                 }
@@ -408,6 +505,11 @@ where
         command: RawCommand<'_>,
         handler: &mut P,
     ) -> Result<(), E> {
+//@ ensures final(self).editor == old(self).editor, final(self).input_generator == old(self).input_generator, final(self).same_hist(old(self)),
+//@     // C01: the handler is called exactly once with this command
+//@     final(handler).calls() == old(handler).calls().push((command.name_bytes(), command.arg_tokens())),   // [C01]
+//@     r is Ok ==> final(self).writer.errs() == old(self).writer.errs(),   // [C14]
+//@     r is Ok ==> final(self).writer.evs().len() > 0 && final(self).writer.evs().last() is F,   // [C15]
         let cli_writer = Writer::new(&mut self.writer);
         let mut handle = CliHandle::new(cli_writer);
 
@@ -434,6 +536,13 @@ where
         tokens: Tokens<'_>,
         handler: &mut P,
     ) -> Result<(), E> {
+//@ ensures final(self).editor == old(self).editor, final(self).input_generator == old(self).input_generator, final(self).same_hist(old(self)),
+//@     // C01 / C12: the handler is called iff there is a command and it is not a help request, with exactly the tokens
+//@     final(handler).calls() == (
+//@         if tokens.view().len() == 0 { old(handler).calls() }
+//@         else if feat_help() && wants_help(tokens.view()[0], tokens.view().drop_first()) { old(handler).calls() }
+//@         else { old(handler).calls().push((tokens.view()[0], tokens.view().drop_first())) }),   // [C01,C12]
+//@     r is Ok ==> final(self).sink_ok(old(self)),   // [C14,C15]
         if let Some(command) = RawCommand::from_tokens(&tokens) {
             #[cfg(feature = "help")]
             if let Some(request) = HelpRequest::from_command(&command) {
@@ -447,6 +556,9 @@ where
     }
 
     fn process_error(&mut self, error: ParseError<'_>) -> Result<(), E> {
+//@ ensures final(self).rest_eq(old(self)),
+//@     r is Ok ==> final(self).writer.errs() == old(self).writer.errs(),   // [C14]
+//@     r is Ok ==> final(self).writer.evs().len() > 0 && final(self).writer.evs().last() is F,   // [C15]
         self.writer.write_str("error: ")?;
         match error {
             ParseError::MissingRequiredArgument { name } => {
@@ -483,6 +595,9 @@ where
 
     #[cfg(feature = "help")]
     fn process_help<C: Help>(&mut self, request: HelpRequest<'_>) -> Result<(), E> {
+//@ ensures final(self).rest_eq(old(self)),
+//@     r is Ok ==> final(self).writer.errs() == old(self).writer.errs(),   // [C14]
+//@     r is Ok ==> final(self).writer.evs().len() > 0 && final(self).writer.evs().last() is F,   // [C15]
         let mut writer = Writer::new(&mut self.writer);
 
         match request {
